@@ -47,6 +47,7 @@ type Result struct {
 	WallS      float64             `json:"wall_s"`
 	start      time.Time
 	vioSeen    map[string]int
+	fallbackSample interface{}
 }
 
 func New(property, unit string) *Result {
@@ -139,6 +140,14 @@ func (r *Result) Max(name string, n int64) {
 // Distinct adds member to a named set; the merged cardinality is reported.
 // Members longer than 24 bytes are stored as a short hash.
 func (r *Result) Distinct(set, member string) {
+	// safety net for the evidence: if the harness's own sampling rule selected nothing in
+	// this shard (it depends on how work items fall onto shards), the first non-trivial
+	// case itself is kept as a sample at Write time
+	r.mu.Lock()
+	if r.fallbackSample == nil && set == "nontrivial" {
+		r.fallbackSample = map[string]interface{}{"nontrivial_case": member}
+	}
+	r.mu.Unlock()
 	if len(member) > 24 {
 		h := sha256.Sum256([]byte(member))
 		member = hex.EncodeToString(h[:9])
@@ -214,6 +223,9 @@ func (r *Result) Write() error {
 	r.mu.Lock()
 	defer r.mu.Unlock()
 	r.WallS = time.Since(r.start).Seconds()
+	if len(r.Samples) == 0 && r.fallbackSample != nil {
+		r.Samples = append(r.Samples, r.fallbackSample)
+	}
 	r.Sets = map[string][]string{}
 	for k, m := range r.sets {
 		l := make([]string, 0, len(m))
